@@ -114,3 +114,118 @@ N('statement-reorder', [(ASM, '''        let pattern_match_mode = builder.patter
 ''', '''        let mock_type_id = info.type_id;
         let pattern_match_mode = builder.pattern_match_mode;
 ''')])
+
+# ---- second batch ------------------------------------------------------------------------------------------------------
+CT = 'src/counter.rs'
+BUILD = 'src/build.rs'
+N('counter-verify-if-chain', [(CT, '''        match self.expectation.exactness {
+            Exactness::Exact => {
+                if actual_calls.0 != lower_bound.0 {
+                    let pattern = debug_fn();
+                    errors.push(MockError::FailedVerification(format!("{path}: Expected {pattern} to match exactly {lower_bound}, but it actually matched {actual_calls}.")));
+                }
+            }
+            Exactness::AtLeast | Exactness::AtLeastPlusOne => {
+                if actual_calls.0 < lower_bound.0 {
+                    let pattern = debug_fn();
+                    errors.push(MockError::FailedVerification(format!("{path}: Expected {pattern} to match at least {lower_bound}, but it actually matched {actual_calls}.")));
+                }
+            }
+        };''', '''        let exact = matches!(self.expectation.exactness, Exactness::Exact);
+        if exact && actual_calls.0 != lower_bound.0 {
+            let pattern = debug_fn();
+            errors.push(MockError::FailedVerification(format!("{path}: Expected {pattern} to match exactly {lower_bound}, but it actually matched {actual_calls}.")));
+        } else if !exact && actual_calls.0 < lower_bound.0 {
+            let pattern = debug_fn();
+            errors.push(MockError::FailedVerification(format!("{path}: Expected {pattern} to match at least {lower_bound}, but it actually matched {actual_calls}.")));
+        }''')])
+N('counter-flip-comparison', [(CT, 'if actual_calls.0 < lower_bound.0 {', 'if lower_bound.0 > actual_calls.0 {')])
+N('rename-lower-bound', [('re:src', r'\blower_bound\b', 'required_calls')])
+N('rename-type', [('re:src', r'\bFnMocker\b', 'MethodMocker')])
+N('rename-private-field-reporter', [('re:src', r'\bmismatches\b', 'failures')])
+N('rename-bump', [('re:src', r'\bbump_ordered_call_index\b', 'take_ordered_call_index')])
+N('build-extract-helper', [(BUILD, '''        self.wrapper.push_returner_result(
+            self.return_value
+                .take()
+                .unwrap()
+                .into_return()
+                .map(|r| r.into_returner()),
+        );
+        self.wrapper.quantify(times, counter::Exactness::Exact);
+        QuantifiedResponse {''', '''        self.push_cloneable(times, counter::Exactness::Exact);
+        QuantifiedResponse {'''), (BUILD, '''        self.wrapper.push_returner_result(
+            self.return_value
+                .take()
+                .unwrap()
+                .into_return()
+                .map(|r| r.into_returner()),
+        );
+        self.wrapper.quantify(times, counter::Exactness::AtLeast);
+        QuantifiedResponse {''', '''        self.push_cloneable(times, counter::Exactness::AtLeast);
+        QuantifiedResponse {'''), (BUILD, '''            _repetition: AtLeast,
+        }
+    }
+}
+
+impl<F, T, O> Clause for QuantifyReturnValue<'_, F, T, O>''', '''            _repetition: AtLeast,
+        }
+    }
+
+    fn push_cloneable(&mut self, times: usize, exactness: counter::Exactness)
+    where
+        T: IntoReturn<F::OutputKind>,
+    {
+        let return_value = self.return_value.take().unwrap();
+        self.wrapper
+            .push_returner_result(return_value.into_return().map(|r| r.into_returner()));
+        self.wrapper.quantify(times, exactness);
+    }
+}
+
+impl<F, T, O> Clause for QuantifyReturnValue<'_, F, T, O>''')])
+N('assemble-match-mode', [(ASM, '''        if builder.pattern_match_mode == PatternMatchMode::InOrder {
+            let exact_calls = builder''', '''        if let PatternMatchMode::InOrder = builder.pattern_match_mode {
+            let exact_calls = builder''')])
+N('assemble-range-literal', [(ASM, '''            ordered_call_index_range.start = self.current_call_index;
+            ordered_call_index_range.end = self.current_call_index + exact_calls.0;
+
+            self.current_call_index = ordered_call_index_range.end;''', '''            let start = self.current_call_index;
+            let end = start + exact_calls.0;
+            ordered_call_index_range = start..end;
+
+            self.current_call_index = end;''')])
+N('eval-fallback-match', [(EV, '''                return if self.info.has_default_impl {
+                    Ok(EvalResult::CallDefaultImpl)
+                } else if self.info.partial_by_default {
+                    Ok(EvalResult::Unmock)
+                } else {
+                    match self.shared_state.fallback_mode {
+                        FallbackMode::Error => Err(MockError::NoMockImplementation {
+                            fn_call: self.fn_call(),
+                        }),
+                        FallbackMode::Unmock => Ok(EvalResult::Unmock),
+                    }
+                }''', '''                return match (
+                    self.info.has_default_impl,
+                    self.info.partial_by_default,
+                    &self.shared_state.fallback_mode,
+                ) {
+                    (true, _, _) => Ok(EvalResult::CallDefaultImpl),
+                    (false, true, _) => Ok(EvalResult::Unmock),
+                    (false, false, FallbackMode::Error) => Err(MockError::NoMockImplementation {
+                        fn_call: self.fn_call(),
+                    }),
+                    (false, false, FallbackMode::Unmock) => Ok(EvalResult::Unmock),
+                }''')])
+N('ctor-helper', [(LIB, '''    pub fn new_partial(setup: impl Clause) -> Self {
+        Self::from_assembler(
+            assemble::MockAssembler::try_from_clause(setup),
+            FallbackMode::Unmock,
+        )
+    }''', '''    pub fn new_partial(setup: impl Clause) -> Self {
+        let assembled = assemble::MockAssembler::try_from_clause(setup);
+        Self::from_assembler(assembled, FallbackMode::Unmock)
+    }''')])
+N('macro-rename-internal-fn', [('re:unimock_macros/src', r'\brender_diagnostics_stmt\b', 'diagnostics_stmt')])
+N('noop-binding', [(EV, '''        match self.match_call_pattern(fn_mocker, match_inputs)? {''', '''        let selected = self.match_call_pattern(fn_mocker, match_inputs)?;
+        match selected {''')])
